@@ -310,7 +310,7 @@ def core_contract(cfg):
     for i, p_ in enumerate(h.ports):
         c.bounded("write_strobe_only_for_a_pending_write" + ("_port%d" % i if multi else ""), lambda f, p_=p_: Implies(
             f.b(p_.wdata.ready), f.b(p_.wdata.valid)))
-    if multi:
+    if multi and cfg.get("single", True):
         m1 = masters[1]
         c.cover("port1_reads_what_port0_wrote", lambda f: And(f.b(h.ports[1].rdata.valid), m1["rq"].nonempty(f), m1["rq"].head(f, "hit") == 1,
                                                               m1["rq"].head(f, "exp") != init), within=cfg.get("depth", 24))
